@@ -29,6 +29,15 @@ where
     let y = c11::run_v::<B2>(c, &o);
     rec.evals(2);
     let pair = format!("{}|{}", B1::NAME, B2::NAME);
+    if c.val == 2 && (x.panic.is_some() || y.panic.is_some()) {
+        // Full-range inputs: a kernel written with checked `+`/`-`/`<<` panics in this (overflow-checked) build where its
+        // SIMD twin wraps silently. Such an input is outside the magnitude domain of that kernel, not a disagreement.
+        let of = |p: &Option<String>| p.as_deref().map(|m| m.contains("overflow")).unwrap_or(true);
+        if of(&x.panic) && of(&y.panic) {
+            rec.add("outside_magnitude_domain_checked_arithmetic", 1);
+            return;
+        }
+    }
     if x.panic.is_some() != y.panic.is_some() {
         rec.fail(json!({"op": c.op, "backend": pair, "kind": "panic_mismatch", "case": c, "panic": [x.panic, y.panic]}));
         return;
@@ -118,6 +127,8 @@ fn v_cases(tier: Tier) -> Vec<VCase> {
                                     p,
                                     b_out: 12,
                                     val,
+                                rot: 0,
+                                stride: 0,
                                 });
                             }
                         }
@@ -166,6 +177,8 @@ fn v_cases(tier: Tier) -> Vec<VCase> {
                                     p,
                                     b_out: b,
                                     val,
+                                rot: 0,
+                                stride: 0,
                                 });
                             }
                         }
@@ -201,6 +214,8 @@ fn v_cases(tier: Tier) -> Vec<VCase> {
                                 p,
                                 b_out,
                                 val,
+                                rot: 0,
+                                stride: 0,
                             });
                         }
                     }
@@ -208,6 +223,59 @@ fn v_cases(tier: Tier) -> Vec<VCase> {
             }
         }
     }
+    out
+}
+
+/// Normalisation kernels over the full i64 range (value class 2 of `VCase`): the carry of a limb is the quotient of a
+/// *wrapping* difference `x - digit`, and the next limb adds it with a wrapping sum; the reference and the SIMD kernels
+/// must wrap at the same points. Every one of the 16 values is put in every lane (two SIMD blocks + a tail) and every
+/// ordered pair of values into adjacent limbs, for limb counts long enough for a 2^(64-b) carry difference to reach a digit.
+fn v_cases_full(tier: Tier) -> Vec<VCase> {
+    let mut out = vec![];
+    let radices: Vec<usize> = tier.pick(vec![1, 2, 7, 12, 17, 30, 31, 32, 33, 52, 61, 62], (1..=62).collect());
+    for op in c11::NORM_OPS {
+        let in_place = matches!(op, "normalize_assign" | "lsh_assign" | "rsh_assign");
+        for &b in &radices {
+            let reach = 64usize.div_ceil(b).min(7); // further limbs a wrapped carry needs to reach a digit
+            let sizes: Vec<usize> = if tier.is_thorough() { vec![1, 2, 3, reach, reach + 1] } else { vec![1, 3, reach + 1] };
+            for &a_s in &sizes {
+                let rss: Vec<usize> = if in_place { vec![a_s] } else { vec![1, a_s, a_s + 1] };
+                for rs in rss {
+                    let bi = b as i64;
+                    let ps: Vec<i64> = match op {
+                        "normalize" => vec![0, -1, bi - 1],
+                        "normalize_assign" => vec![0],
+                        _ => vec![0, 1, bi - 1, bi],
+                    };
+                    for p in ps {
+                        for rot in 0..16u8 {
+                            for stride in tier.pick(vec![0u8, 1, 5, 11], (0..16u8).collect()) {
+                                out.push(VCase {
+                                    op: op.into(),
+                                    n: 9,
+                                    b,
+                                    cols: 1,
+                                    rs,
+                                    a_s: if in_place { 1 } else { a_s },
+                                    bs: 1,
+                                    rc: 0,
+                                    ac: 0,
+                                    bc: 0,
+                                    p,
+                                    b_out: b,
+                                    val: 2,
+                                    rot,
+                                    stride,
+                                });
+                            }
+                        }
+                    }
+                }
+            }
+        }
+    }
+    out.sort_by_key(|c| format!("{:?}", c));
+    out.dedup_by_key(|c| format!("{:?}", c));
     out
 }
 
@@ -464,6 +532,12 @@ pub fn run_hal(run: &mut Run) {
         run.family("coefficient/ntt120-ref|ntt120-avx", rule_v, vcs.clone(), |c, rec| cmp_v::<NTT120Ref, NTT120Avx>(c, seed, rec));
     }
     run.family("coefficient/fft64-ref|ntt120-ref", rule_v, vcs, |c, rec| cmp_v::<FFT64Ref, NTT120Ref>(c, seed, rec));
+    let rule_f = "normalisation / shift kernels on inputs over the full i64 range: 16 values around the wrap points of x - digit and x + carry (i64::MAX, i64::MIN, 2^63 - 2^(b-1) +-1, +-2^62, ...) x every SIMD lane and tail (n = 9) x every ordered pair of values in adjacent limbs (rot x stride) x limb counts up to the reach of a wrapped carry x radices x intra-limb offsets; byte comparison; inputs on which a checked-arithmetic kernel overflows are counted as outside its magnitude domain";
+    if host_has_avx() {
+        let fcs = v_cases_full(tier);
+        run.family("coefficient_full_range/fft64-ref|fft64-avx", rule_f, fcs.clone(), |c, rec| cmp_v::<FFT64Ref, FFT64Avx>(c, seed, rec));
+        run.family("coefficient_full_range/ntt120-ref|ntt120-avx", rule_f, fcs, |c, rec| cmp_v::<NTT120Ref, NTT120Avx>(c, seed, rec));
+    }
     if host_has_avx() {
         run.family("dft_domain/fft64-ref|fft64-avx", rule_d, dcs.clone(), |c, rec| cmp_d::<FFT64Ref, FFT64Avx>(c, seed, rec));
         run.family("dft_domain/ntt120-ref|ntt120-avx", rule_d, dcs.clone(), |c, rec| cmp_d::<NTT120Ref, NTT120Avx>(c, seed, rec));
@@ -488,7 +562,7 @@ pub fn replay(run: &mut Run, d: &Value) -> bool {
     let pair = fam.split('/').nth(1).unwrap_or("").to_string();
     macro_rules! go {
         ($A:ty, $B:ty) => {{
-            if fam.starts_with("coefficient/") {
+            if fam.starts_with("coefficient/") || fam.starts_with("coefficient_full_range/") {
                 let c: VCase = serde_json::from_value(d["case"].clone()).unwrap();
                 run.single(&fam, "replay", |rec| cmp_v::<$A, $B>(&c, seed, rec));
             } else if fam.starts_with("dft_domain/") {
